@@ -358,6 +358,14 @@ def _visit(R, ti, mat, only):
             runs["prepare"] = [x for k, part in got for x in part]
             if any(k != len(part) for k, part in got):
                 R.mismatch("split-pipeline-prepare-result-not-passed-along", inner, f"{got}")
+            # chunks that are still referenced after the next one has been fetched (what an eager map, a prefetching imap or any
+            # caller that collects results does): every collected chunk keeps its OWN span
+            raw = split(clr, chunksize=cs).gather()
+            runs["raw-chunks-collected"] = [x for ch in raw for x in f(ch)]
+            kept = split(clr, chunksize=cs).pipe(lambda chunk: chunk).gather()
+            runs["stage-returns-its-chunk"] = [x for ch in kept for x in f(ch)]
+            if len({id(ch) for ch in raw}) != len(raw) or len({id(ch["pixels"]) for ch in raw}) != len(raw):
+                R.mismatch("split-pipeline-hands-out-the-same-chunk-object-twice", inner, f"{len(raw)} chunks, {len({id(ch) for ch in raw})} distinct objects")
             for how, flat2 in runs.items():
                 if flat2 != allpix:
                     R.mismatch("split-pipeline-does-not-visit-every-pixel-once:" + how, inner, f"saw={flat2} stored={allpix}")
